@@ -1,18 +1,24 @@
 """C10 - scene-level quantities equal explicit placement of every instance.
 
-Reference: spec/ScenePlace.tla (World(n) as the product of exact edge transforms, Placed as the
-geometry of every instancing node moved by it; bounds, triangle bag, 6*volume, 2*area as
-functions of Placed; copy / scaled / rezero / apply_transform / + / subscene / to_mesh and
-geometry or graph edits specified by their effect on Placed).
-The harness enumerates small forests x exact edge transforms (cube rotations, integer uniform
-scale, integer translations) x geometry assignments (0, 1 or several instances; mesh, closed
-mesh, point cloud) x operation histories, builds the real Scene, performs the operations,
-snaps what the scene reports to integers (residual test) and records it; TLC validates every
-record against the specification (code -> spec).  The source scene is re-observed after each
-derived-scene operation (SourceUnmodified).
+Reference: spec/ScenePlace.tla (placed vertices of every instancing node carried up the chain of exact
+rational edge maps x -> (l.x + t)/d, then through the STEPS an operation history is specified to
+apply: affine maps and re-zeroings, optionally scoped to one operand of a sum; bounds, triangle bag,
+6*volume, 2*area, the convex hull (as a certificate: closed, convex, vertices among the placed points,
+every placed point inside), 24*first moment and 120*inertia about the base frame as functions of the
+placed instances).
+The harness enumerates small forests x exact edge transforms (cube rotations, 3-4-5 / 1-2-2 rational
+rotations, uniform scales 2 and 1/2, integer translations, the whole scene at magnitudes 2^-24..2^30)
+x geometry assignments (0, 1 or several instances; closed mesh, open sheet, point cloud, 2D and 3D
+path, geometries present but not instanced) x operation histories (single operations, two- and
+three-operation sequences, operations after a re-zeroing renamed the base frame), builds the real
+Scene, performs the operations, snaps what the scene reports to integers (residual test) and records
+it; TLC validates every record against the specification (code -> spec).  The source scene is
+re-observed after each derived-scene operation (SourceUnmodified).
 """
 import itertools
+import math
 import sys
+from fractions import Fraction
 
 import numpy as np
 
@@ -37,82 +43,187 @@ def mm(A, B):
     return (np.array(A) @ np.array(B)).tolist()
 
 
+def E(l, t, d=1):
+    """the affine map x -> (l.x + t) / d with integer l, t, d"""
+    return {"l": l, "t": t, "d": d}
+
+
 GENS = [
-    {"l": I3, "t": [0, 0, 0]},
-    {"l": RZ, "t": [4, 0, 0]},
-    {"l": RX, "t": [0, 2, 0]},
-    {"l": sc(I3, 2), "t": [0, 0, 2]},
-    {"l": I3, "t": [2, 2, 0]},
-    {"l": sc(RZ, 2), "t": [-2, 0, 4]},
-    {"l": mm(RY, RZ), "t": [0, -4, 2]},
+    E(I3, [0, 0, 0]),
+    E(RZ, [4, 0, 0]),
+    E(RX, [0, 2, 0]),
+    E(sc(I3, 2), [0, 0, 2]),
+    E(I3, [2, 2, 0]),
+    E(sc(RZ, 2), [-2, 0, 4]),
+    E(mm(RY, RZ), [0, -4, 2]),
 ]
+# rational rotations (not axis aligned: the box of a rotated box is not the rotated box), scale 1/2
+R345Z = [[3, -4, 0], [4, 3, 0], [0, 0, 5]]
+R345X = [[5, 0, 0], [0, 3, -4], [0, 4, 3]]
+R122 = [[1, -2, 2], [2, -1, -2], [2, 2, 1]]
+RGENS = [
+    E(R345Z, [10, 0, 5], 5),
+    E(R345X, [0, -5, 0], 5),
+    E(R122, [3, 0, 6], 3),
+    E(I3, [0, 2, 0], 2),
+    E(sc(R345Z, 2), [0, 0, 10], 5),
+]
+# small maps for the mass-property records (coordinates must stay <= 12 for 32-bit TLC integers)
+MGENS = [
+    E(I3, [0, 0, 0]),
+    E(RZ, [2, 0, 0]),
+    E(RX, [0, 1, 0]),
+    E(I3, [1, 1, 0]),
+    E(sc(I3, 2), [0, 0, 1]),
+    E(mm(RY, RZ), [0, -2, 1]),
+    E(sc(RZ, 2), [-1, 0, 0]),
+]
+IDM = E(I3, [0, 0, 0])
 
 
-def to4(e):
+def to4(e, K=1.0):
     M = np.eye(4)
-    M[:3, :3] = e["l"]
-    M[:3, 3] = e["t"]
+    M[:3, :3] = np.array(e["l"], dtype=float) / e["d"]
+    M[:3, 3] = np.array(e["t"], dtype=float) / e["d"] * K
     return M
 
 
+def is_rotated(e):
+    """linear part is not a multiple of the identity"""
+    L = np.array(e["l"])
+    return bool((L != np.eye(3, dtype=int) * L[0, 0]).any())
+
+
 def geoms_lib(tm):
-    """name -> (object factory, integer vertices, faces(1-based), a2)"""
+    """name -> dict(make(K) -> object, v integer vertices (3D), f faces (0-based), a2, kind)"""
     box = tm.creation.box(extents=[2, 4, 2])
     bv = np.round(np.array(box.vertices) + [1, 2, 1]).astype(int)          # [0,2]x[0,4]x[0,2]
+    bf = np.array(box.faces)
     tv = np.array([[0, 0, 0], [2, 0, 0], [0, 4, 0], [0, 0, 2]])
     tf = np.array([[0, 2, 1], [0, 1, 3], [1, 2, 3], [2, 0, 3]])
     cv = np.array([[0, 0, 0], [2, 2, 0], [0, 4, 2], [-2, 0, 2]])
     sv = np.array([[0, 0, 0], [2, 0, 0], [2, 2, 0], [0, 2, 0]])               # open square sheet
     sf = np.array([[0, 1, 2], [0, 2, 3]])
+    rect = np.array([[0, 0], [2, 0], [2, 4], [0, 4], [0, 0]])                 # closed 2D polyline
+    pl3 = np.array([[0, 0, 0], [2, 0, 0], [2, 4, 2]])                         # open 3D polyline
+    nof = np.zeros((0, 3), dtype=int)
+
+    def path_vertices(obj):
+        v = np.round(np.array(obj.vertices)).astype(int)
+        return v if v.shape[1] == 3 else np.column_stack([v, np.zeros(len(v), dtype=int)])
     lib = {
-        "box": (lambda: tm.Trimesh(bv.astype(float), np.array(box.faces), process=False), bv, np.array(box.faces), 2 * 2 * (2 * 4 + 4 * 2 + 2 * 2)),
-        "tet": (lambda: tm.Trimesh(tv.astype(float), tf, process=False), tv, tf, 0),
-        "cloud": (lambda: tm.PointCloud(cv.astype(float)), cv, np.zeros((0, 3), dtype=int), 0),
-        "sheet": (lambda: tm.Trimesh(sv.astype(float), sf, process=False), sv, sf, 2 * 4),
+        "box": dict(make=lambda K=1.0: tm.Trimesh(bv * K, bf, process=False), v=bv, f=bf, a2=2 * 2 * (2 * 4 + 4 * 2 + 2 * 2), kind="solid"),
+        "tet": dict(make=lambda K=1.0: tm.Trimesh(tv * K, tf, process=False), v=tv, f=tf, a2=0, kind="solid"),
+        "cloud": dict(make=lambda K=1.0: tm.PointCloud(cv * K), v=cv, f=nof, a2=0, kind="cloud"),
+        "sheet": dict(make=lambda K=1.0: tm.Trimesh(sv * K, sf, process=False), v=sv, f=sf, a2=2 * 4, kind="sheet"),
+        "rect": dict(make=lambda K=1.0: tm.load_path(rect * K), v=path_vertices(tm.load_path(rect * 1.0)), f=nof, a2=0, kind="path2"),
+        "pl3": dict(make=lambda K=1.0: tm.load_path(pl3 * K), v=path_vertices(tm.load_path(pl3 * 1.0)), f=nof, a2=0, kind="path3"),
     }
     return lib
-
-
-def snap(x, what):
-    a = np.asarray(x, dtype=float)
-    r = np.round(a)
-    if a.size and np.abs(a - r).max() > 1e-6:
-        raise OffLattice(what)
-    return r.astype(int).tolist()
 
 
 class OffLattice(Exception):
     pass
 
 
-def observe(scene, factor=1, want_tris=True, closed_only=True, area_ok=True):
-    """What the scene reports, snapped to integers (coordinates multiplied by `factor`)."""
+def snap(x, what):
+    a = np.asarray(x, dtype=float)
+    r = np.round(a)
+    if a.size and not np.isfinite(a).all():
+        raise OffLattice(what + "_not_finite")
+    if a.size and np.abs(a - r).max() > 1e-6 * max(1.0, float(np.abs(r).max()) * 1e-3):
+        raise OffLattice(what)
+    if a.size and np.abs(r).max() >= 2 ** 31 - 1:
+        raise MachineryError("integer beyond 32 bits in a record: " + what)
+    return r.astype(int).tolist()
+
+
+NOHULL = {"has": False, "exc": "", "v": [], "f": []}
+NOMASS = {"has": False, "exc": "", "cm_on": True, "cm24": [0, 0, 0], "in_on": True, "in120": [0, 0, 0, 0, 0, 0]}
+
+
+def observe_dummy():
+    return {"empty": True, "bounds": [[0, 0, 0], [0, 0, 0]], "has_tris": False, "tris": [], "has_vol": False,
+            "vol6": 0, "vol_exc": "", "has_area": False, "area2": 0, "area_exc": "", "hull": dict(NOHULL), "mass": dict(NOMASS)}
+
+
+HULL_EXTENT = 500     # |cross| * |p - a| must stay below 2^31 in TLC
+MASS_COORD = 12
+
+
+def observe(scene, u, closed_only=True, area_ok=True, want_hull=False, want_mass=False, light=False):
+    """What the scene reports, snapped to integers.  u: units dict(F, K, FV, FA): coordinates are multiplied
+    by F / K, 6 * volume by FV / K^3, 2 * area by FA / K^2."""
+    obs = observe_dummy()
     if scene.is_empty or scene.bounds is None:
-        return {"empty": True, "bounds": [[0, 0, 0], [0, 0, 0]], "has_tris": False, "tris": [], "has_vol": False,
-                "vol6": 0, "has_area": False, "area2": 0}
-    obs = {"empty": False}
-    obs["bounds"] = snap(np.array(scene.bounds) * factor, "bounds")
+        return obs
+    cf = u["F"] / u["K"]
+    obs["empty"] = False
+    obs["bounds"] = snap(np.array(scene.bounds) * cf, "bounds")
     # extents and centroid are functions of bounds by definition: checked here as integers against bounds
-    ext = snap(np.array(scene.extents) * factor, "extents")
-    cen2 = snap(np.array(scene.centroid) * 2 * factor, "centroid")
+    ext = snap(np.array(scene.extents) * cf, "extents")
+    cen2 = snap(np.array(scene.centroid) * 2 * cf, "centroid")
     b = np.array(obs["bounds"])
     if ext != (b[1] - b[0]).tolist() or cen2 != (b[0] + b[1]).tolist():
         raise OffLattice("extents_or_centroid_inconsistent_with_bounds")
-    tris = []
     try:
-        tris = snap(np.array(scene.triangles) * factor, "triangles")
-        obs["has_tris"] = want_tris
+        obs["tris"] = snap(np.array(scene.triangles) * cf, "triangles")
+        obs["has_tris"] = True
     except ValueError:
         obs["has_tris"] = False  # no triangle geometry at all (vstack of nothing)
-    obs["tris"] = tris if obs["has_tris"] else []
-    obs["has_vol"] = bool(closed_only)
-    obs["vol6"] = snap(np.array(float(scene.volume)) * 6 * factor ** 3, "volume") if closed_only else 0
-    obs["has_area"] = bool(area_ok)
-    obs["area2"] = snap(np.array(float(scene.area)) * 2 * factor ** 2, "area") if area_ok else 0
+    if light:
+        return obs
+    if closed_only:
+        obs["has_vol"] = True
+        try:
+            obs["vol6"] = snap(np.array(float(scene.volume)) * 6 * u["FV"] / u["K"] ** 3, "volume")
+        except OffLattice:
+            raise
+        except BaseException as e:  # noqa
+            obs["vol_exc"] = type(e).__name__ + ":" + str(e)[:60]
+    if area_ok:
+        obs["has_area"] = True
+        try:
+            obs["area2"] = snap(np.array(float(scene.area)) * 2 * u["FA"] / u["K"] ** 2, "area")
+        except OffLattice:
+            raise
+        except BaseException as e:  # noqa
+            obs["area_exc"] = type(e).__name__ + ":" + str(e)[:60]
+    if want_hull and (b[1] - b[0]).max() <= HULL_EXTENT and (b[1] - b[0]).min() > 0:
+        h = {"has": True, "exc": "", "v": [], "f": []}
+        try:
+            hull = scene.convex_hull
+            h["v"] = snap(np.array(hull.vertices) * cf, "hull")
+            h["f"] = (np.array(hull.faces) + 1).tolist()
+        except OffLattice as e:
+            h["exc"] = "offlattice:" + str(e)
+        except BaseException as e:  # noqa
+            h["exc"] = type(e).__name__ + ":" + str(e)[:60]
+        obs["hull"] = h
+    if (want_mass and closed_only and not obs["vol_exc"] and u["F"] == 1 and u["K"] == 1.0 and u["FV"] == 1
+            and obs["has_tris"] and obs["vol6"] > 0 and np.abs(b).max() <= MASS_COORD):
+        m = {"has": True, "exc": "", "cm_on": True, "cm24": [0, 0, 0], "in_on": True, "in120": [0, 0, 0, 0, 0, 0]}
+        try:
+            cm = np.array(scene.center_mass, dtype=float)
+            try:
+                m["cm24"] = snap(cm * 4 * obs["vol6"], "center_mass")
+            except OffLattice:
+                m["cm_on"] = False
+            inr = np.array(scene.moment_inertia_frame(np.eye(4)), dtype=float) * 120
+            try:
+                m["in120"] = snap([inr[0, 0], inr[1, 1], inr[2, 2], inr[0, 1], inr[0, 2], inr[1, 2]], "inertia")
+            except OffLattice:
+                m["in_on"] = False
+        except MachineryError:
+            raise
+        except BaseException as e:  # noqa
+            m["exc"] = type(e).__name__ + ":" + str(e)[:60]
+        obs["mass"] = m
     return obs
 
 
 def build(tm, lib, cfg):
+    K = float(cfg.get("K", 1.0))
     s = tm.Scene()
     names = ["n%d" % (k + 1) for k in range(len(cfg["parent"]))]
     objs = {}
@@ -121,151 +232,242 @@ def build(tm, lib, cfg):
         if g:
             gname = cfg["gnames"][g - 1]
             if gname not in objs:
-                objs[gname] = lib[gname][0]()
-                s.add_geometry(objs[gname], node_name=names[k], geom_name=gname, parent_node_name=parent, transform=to4(e))
+                objs[gname] = lib[gname]["make"](K)
+                s.add_geometry(objs[gname], node_name=names[k], geom_name=gname, parent_node_name=parent, transform=to4(e, K))
             else:
                 # a further instance of a geometry already in the scene: a node referencing it by name
-                s.graph.update(frame_to=names[k], frame_from=parent, matrix=to4(e), geometry=gname)
+                s.graph.update(frame_to=names[k], frame_from=parent, matrix=to4(e, K), geometry=gname)
         else:
-            s.graph.update(frame_to=names[k], frame_from=parent, matrix=to4(e))
+            s.graph.update(frame_to=names[k], frame_from=parent, matrix=to4(e, K))
+    if cfg.get("orphan"):
+        # a geometry that is in the scene but instanced zero times (far away and large: it must not count)
+        o = lib["box"]["make"](K * 64.0)
+        s.geometry["orphan"] = o
+    if cfg.get("strip"):
+        # every geometry instanced zero times: the nodes lose their geometry reference
+        s.graph.remove_geometries(list(s.geometry.keys()))
     return s, names
 
 
-def spec_geoms(lib, gnames, scale=1, edits=None):
+def spec_geoms(lib, gnames, edits=None):
     out = []
     for g in gnames:
-        v = (np.array(lib[g][1]) * scale)
+        v = np.array(lib[g]["v"])
         if edits and g in edits:
             v = v.copy()
             for idx, newv in edits[g]:
                 v[idx] = newv
-        out.append({"v": v.tolist(), "f": (np.array(lib[g][2]) + 1).tolist(), "a2": int(lib[g][3]) * scale * scale})
+        out.append({"v": v.tolist(), "f": (np.array(lib[g]["f"]) + 1).tolist(), "a2": int(lib[g]["a2"])})
     return out
 
 
-def spec_cfg(cfg, scale=1):
-    return {"parent": cfg["parent"], "geom": cfg["geom"],
-            "edge": [{"l": e["l"], "t": (np.array(e["t"]) * scale).tolist()} for e in cfg["edge"]]}
-
-
-IDM = {"l": I3, "t": [0, 0, 0]}
+def spec_cfg(cfg):
+    geom = [0] * len(cfg["geom"]) if cfg.get("strip") else cfg["geom"]
+    return {"parent": cfg["parent"], "geom": geom, "edge": [{"l": e["l"], "t": e["t"], "d": e["d"]} for e in cfg["edge"]]}
 
 
 def flags(cfg, lib):
-    used = [cfg["gnames"][g - 1] for g in cfg["geom"] if g]
-    closed = all(u in ("box", "tet", "cloud") for u in used)       # open sheets have no meaningful volume
-    area_ok = all(lib[u][3] > 0 or u == "cloud" for u in used)
-    return closed, area_ok
+    used = [lib[cfg["gnames"][g - 1]]["kind"] for g in cfg["geom"] if g]
+    closed = all(u != "sheet" for u in used)       # open sheets have no meaningful volume
+    # area: only for meshes whose faces stay axis aligned or clouds; a path's `area` is the area it encloses
+    area_ok = all((u == "solid" and lib[n]["a2"] > 0) or u in ("cloud", "sheet") for u, n in
+                  zip(used, [cfg["gnames"][g - 1] for g in cfg["geom"] if g]))
+    solid = any(u == "solid" for u in used)
+    return closed, area_ok, solid
+
+
+def m_step(e, lo=0, hi=0):
+    return {"k": "m", "l": e["l"], "t": e["t"], "d": e["d"], "lo": lo, "hi": hi}
+
+
+def rz_step(lo=0, hi=0):
+    return {"k": "rezero", "l": I3, "t": [0, 0, 0], "d": 1, "lo": lo, "hi": hi}
+
+
+def _lcm(a, b):
+    return a * b // math.gcd(a, b)
+
+
+def units_for(cfg, steps, sub, K):
+    """F, FV, FA clearing every denominator of the record (units only: the spec re-checks exactness)."""
+    n = len(cfg["parent"])
+    F, FV, FA = 1, 1, 1
+    for k in range(n):
+        if not cfg["geom"][k]:
+            continue
+        node = k + 1
+        d, vf, af = 1, Fraction(1), Fraction(1)
+        cur, ok = node, sub == 0
+        while cur != 0 and cur != sub:
+            e = cfg["edge"][cur - 1]
+            d *= e["d"]
+            vf *= Fraction(abs(int(round(np.linalg.det(np.array(e["l"], dtype=float))))), e["d"] ** 3)
+            af *= Fraction(int(np.dot(e["l"][0], e["l"][0])), e["d"] ** 2)
+            cur = cfg["parent"][cur - 1]
+        if cur == sub:
+            ok = True
+        if not ok:
+            continue
+        for st in steps:
+            if st["hi"] and not (st["lo"] <= node <= st["hi"]):
+                continue
+            if st["k"] == "m":
+                d *= st["d"]
+                vf *= Fraction(abs(int(round(np.linalg.det(np.array(st["l"], dtype=float))))), st["d"] ** 3)
+                af *= Fraction(int(np.dot(st["l"][0], st["l"][0])), st["d"] ** 2)
+        F, FV, FA = _lcm(F, d), _lcm(FV, vf.denominator), _lcm(FA, af.denominator)
+    F *= 2 ** sum(1 for st in steps if st["k"] == "rezero")
+    return {"F": F, "FV": FV, "FA": FA, "K": float(K)}
+
+
+def merge_cfgs(cfgs):
+    merged = {"parent": [], "edge": [], "geom": [], "gnames": []}
+    ranges = []
+    for c_ in cfgs:
+        n0, g0 = len(merged["parent"]), len(merged["gnames"])
+        merged["parent"] += [p_ + n0 if p_ else 0 for p_ in c_["parent"]]
+        merged["edge"] += c_["edge"]
+        merged["geom"] += [0 if c_.get("strip") else (g_ + g0 if g_ else 0) for g_ in c_["geom"]]
+        merged["gnames"] += c_["gnames"]
+        ranges.append((n0 + 1, n0 + len(c_["parent"])))
+    return merged, ranges
+
+
+def scale_map(k):
+    """scale argument of Scene.scaled -> (argument for trimesh, affine map, uniform?)"""
+    if isinstance(k, tuple):          # rational uniform factor num / den
+        return k[0] / k[1], E(sc(I3, k[0]), [0, 0, 0], k[1]), True
+    if isinstance(k, list):
+        return k, E([[k[0], 0, 0], [0, k[1], 0], [0, 0, k[2]]], [0, 0, 0]), len(set(k)) == 1
+    return k, E(sc(I3, k), [0, 0, 0]), True
+
+
+UNITS = {("cm", "mm"): E(sc(I3, 10), [0, 0, 0]), ("mm", "cm"): E(I3, [0, 0, 0], 10), ("m", "cm"): E(sc(I3, 100), [0, 0, 0])}
+MESH_KINDS = ("solid", "sheet")
 
 
 def run_config(tm, lib, cfg, ops, out):
     """Build the scene, run each operation history, append records to out."""
-    closed, area_ok = flags(cfg, lib)
-    gl = spec_geoms(lib, cfg["gnames"])
+    K = float(cfg.get("K", 1.0))
+    fam = cfg.get("fam", "base")
 
-    def rec(op, scene_fn, m=IDM, sub=0, scfg=None, sgeoms=None, factor=1, area=True, **kw):
-        r = {"op": op, "cfg": scfg or spec_cfg(cfg, factor), "geoms": sgeoms or spec_geoms(lib, cfg["gnames"], factor),
-             "m": m, "sub": sub, "exc": "", "desc": {"parent": cfg["parent"], "geom": cfg["geom"], "gnames": cfg["gnames"], **kw}}
+    def emit(op, scene_fn, c=None, steps=(), sub=0, area=True, edits=None, hull=None, mass=None, novol=False, **kw):
+        c = c or cfg
+        cl, ar, so = flags(c, lib)
+        steps = list(steps)
+        u = units_for(c if not c.get("strip") else dict(c, geom=[0] * len(c["geom"])), steps, sub, K)
+        similar = all(st["k"] != "m" or is_rot_only(st) for st in steps)
+        r = {"op": op, "fam": fam, "cfg": spec_cfg(c), "geoms": spec_geoms(lib, c["gnames"], edits), "steps": steps, "sub": sub,
+             "F": u["F"], "FV": u["FV"], "FA": u["FA"], "exc": "",
+             "desc": {"parent": c["parent"], "geom": c["geom"], "gnames": c["gnames"], "K": K, "orphan": bool(cfg.get("orphan")),
+                      "strip": bool(cfg.get("strip")), **kw}}
+        so = sel_has_solid(c, sub, lib)     # the placed points are then certainly not coplanar
+        want_hull = (cfg.get("hull", False) if hull is None else hull) and so
+        want_mass = (cl and so and similar) if mass is None else mass
+        if sub and c["geom"][sub - 1]:
+            # as built the subscene leaves out the geometry of its own root (attributed in the spec by comparing
+            # with the strict descendants): keep that comparison to bounds / triangles / volume / area
+            want_hull = want_mass = False
         try:
             sc_ = scene_fn()
-            r["obs"] = observe(sc_, factor, closed_only=closed, area_ok=area_ok and area)
+            r["obs"] = observe(sc_, u, closed_only=cl and not novol, area_ok=ar and area and similar and not edits,
+                               want_hull=want_hull, want_mass=want_mass)
         except OffLattice as e:
             r["exc"] = "offlattice:" + str(e)
             r["obs"] = observe_dummy()
+        except MachineryError:
+            raise
         except BaseException as e:  # noqa
             r["exc"] = type(e).__name__ + ":" + str(e)[:60]
             r["obs"] = observe_dummy()
         out.append(r)
 
+    def warm(s):
+        try:
+            observe(s, {"F": 1, "K": K, "FV": 1, "FA": 1}, light=True)
+        except BaseException:  # noqa
+            pass
+
     for op in ops:
         s, names = build(tm, lib, cfg)
         kind = op[0]
         if kind == "read":
-            rec("read", lambda: s)
+            emit("read", lambda: s)
         elif kind == "copy":
-            rec("copy", lambda: s.copy())
-            rec("source_after_copy", lambda: s)
+            emit("copy", lambda: s.copy())
+            emit("source_after_copy", lambda: s)
         elif kind == "scaled":
-            k = op[1]
-            observe(s, closed_only=closed, area_ok=area_ok)  # warm the caches of the source first
-            dev = "per_axis" if isinstance(k, list) else "uniform"
-            m = {"l": [[k[0], 0, 0], [0, k[1], 0], [0, 0, k[2]]] if isinstance(k, list) else sc(I3, k), "t": [0, 0, 0]}
-            # the area law (scale^2) only holds for similarity maps: not demanded for non-uniform factors
-            uniform = not isinstance(k, list) or len(set(k)) == 1
-            rec("scaled_" + dev, lambda: s.scaled(k), m=m, area=uniform, scale=k)
-            rec("source_after_scaled", lambda: s)
+            arg, m, uniform = scale_map(op[1])
+            warm(s)  # warm the caches of the source first
+            dev = "uniform" if uniform else "per_axis"
+            if isinstance(op[1], list) and uniform:
+                dev = "per_axis"        # a list argument, equal factors (kept under the old record name)
+            emit("scaled_" + dev, lambda: s.scaled(arg), steps=[m_step(m)], scale=str(op[1]), per_axis=not uniform)
+            emit("source_after_scaled", lambda: s)
         elif kind == "apply_transform":
-            g = GENS[op[1]]
-            observe(s, closed_only=closed, area_ok=area_ok)
-            rec("apply_transform", lambda: s.apply_transform(to4(g)), m=g)
+            g = op[1]
+            warm(s)
+            emit("apply_transform", lambda: s.apply_transform(to4(g, K)), steps=[m_step(g)])
         elif kind == "rezero":
-            observe(s, closed_only=closed, area_ok=area_ok)
+            warm(s)
 
             def f():
                 s.rezero()
                 return s
-            rec("rezero", f, factor=2)
-        elif kind == "to_mesh":
-            def f():
-                return tm.Scene(s.to_mesh())
-            if any(cfg["gnames"][g - 1] != "cloud" for g in cfg["geom"] if g):
+            emit("rezero", f, steps=[rz_step()])
+        elif kind in ("to_mesh", "to_geometry", "dumpc"):
+            kinds = {lib[cfg["gnames"][g - 1]]["kind"] for g in cfg["geom"] if g}
+            if kind == "to_mesh":
+                if not kinds:
+                    continue
                 # to_mesh drops non-mesh geometry by contract: compare on the mesh-only configuration
                 c2 = dict(cfg)
-                c2["geom"] = [g if g and cfg["gnames"][g - 1] != "cloud" else 0 for g in cfg["geom"]]
-                rec("to_mesh", f, scfg=spec_cfg(c2))
+                c2["geom"] = [g if g and lib[cfg["gnames"][g - 1]]["kind"] in MESH_KINDS else 0 for g in cfg["geom"]]
+                emit("to_mesh", lambda: tm.Scene(s.to_mesh()), c=c2)
+            elif kinds and (kinds <= set(MESH_KINDS) or kinds <= {"path2", "path3"}):
+                # concatenation of like-typed geometry keeps every instance
+                if kind == "to_geometry":
+                    emit("to_geometry", lambda: tm.Scene(s.to_geometry()))
+                else:
+                    emit("dump_concatenate", lambda: tm.Scene(s.dump(concatenate=True)))
         elif kind == "dump":
-            def f():
-                return tm.Scene(s.dump())
-            rec("dump", f)
+            emit("dump", lambda: tm.Scene(s.dump()))
         elif kind == "subscene":
             node = op[1]
             if node <= len(names):
-                rec("subscene", lambda: s.subscene(names[node - 1]), sub=node)
-                rec("source_after_subscene", lambda: s)
+                emit("subscene", lambda: s.subscene(names[node - 1]), sub=node)
+                emit("source_after_subscene", lambda: s)
         elif kind == "add":
             cfg2 = op[1]
-            s2, _ = build(tm, lib, cfg2)
-            # rename second scene's nodes/geometries apart is the library's job; spec: union of placements
-            n1 = len(cfg["parent"])
-            merged = {"parent": cfg["parent"] + [p + n1 if p else 0 for p in cfg2["parent"]],
-                      "edge": cfg["edge"] + cfg2["edge"],
-                      "geom": cfg["geom"] + [g + len(cfg["gnames"]) if g else 0 for g in cfg2["geom"]],
-                      "gnames": cfg["gnames"] + cfg2["gnames"]}
-            cl2, ar2 = flags(merged, lib)
-            r = {"op": "add", "cfg": spec_cfg(merged), "geoms": spec_geoms(lib, merged["gnames"]), "m": IDM, "sub": 0, "exc": "",
-                 "desc": {"parent": merged["parent"], "geom": merged["geom"], "gnames": merged["gnames"]}}
-            try:
-                r["obs"] = observe(s + s2, closed_only=cl2, area_ok=ar2)
-            except OffLattice as e:
-                r["exc"], r["obs"] = "offlattice:" + str(e), observe_dummy()
-            except BaseException as e:  # noqa
-                r["exc"], r["obs"] = type(e).__name__ + ":" + str(e)[:60], observe_dummy()
-            out.append(r)
-            rec("source_after_add", lambda: s)
+            s2, _ = build(tm, lib, dict(cfg2, K=K))
+            # renaming the second scene's nodes / geometries apart is the library's job; spec: union of placements
+            merged, _ = merge_cfgs([cfg, cfg2])
+            emit("add", lambda: s + s2, c=merged)
+            emit("source_after_add", lambda: s)
         elif kind == "append3":
             cfgs3 = [cfg, op[1], op[2]]
-            scenes3 = [s] + [build(tm, lib, c_)[0] for c_ in cfgs3[1:]]
-            merged = {"parent": [], "edge": [], "geom": [], "gnames": []}
-            for c_ in cfgs3:
-                n0, g0 = len(merged["parent"]), len(merged["gnames"])
-                merged["parent"] += [p_ + n0 if p_ else 0 for p_ in c_["parent"]]
-                merged["edge"] += c_["edge"]
-                merged["geom"] += [g_ + g0 if g_ else 0 for g_ in c_["geom"]]
-                merged["gnames"] += c_["gnames"]
-            cl3, ar3 = flags(merged, lib)
-            r = {"op": "append3", "cfg": spec_cfg(merged), "geoms": spec_geoms(lib, merged["gnames"]), "m": IDM, "sub": 0, "exc": "",
-                 "desc": {"parent": merged["parent"], "geom": merged["geom"], "gnames": merged["gnames"]}}
-            try:
+            scenes3 = [s] + [build(tm, lib, dict(c_, K=K))[0] for c_ in cfgs3[1:]]
+            merged, _ = merge_cfgs(cfgs3)
+
+            def f():
                 from trimesh.scene.scene import append_scenes
-                r["obs"] = observe(append_scenes(scenes3), closed_only=cl3, area_ok=ar3)
-            except OffLattice as e:
-                r["exc"], r["obs"] = "offlattice:" + str(e), observe_dummy()
-            except BaseException as e:  # noqa
-                r["exc"], r["obs"] = type(e).__name__ + ":" + str(e)[:60], observe_dummy()
-            out.append(r)
+                return append_scenes(scenes3)
+            emit("append3", f, c=merged)
+        elif kind == "units":
+            src, dst = op[1], op[2]
+            warm(s)
+
+            def f():
+                s.units = src
+                d_ = s.convert_units(dst)
+                if d_.units != dst or s.units != src:
+                    raise ValueError("units tag: result %r source %r" % (d_.units, s.units))
+                return d_
+            emit("convert_units", f, steps=[m_step(UNITS[(src, dst)])], units=src + "->" + dst)
+            emit("source_after_convert_units", lambda: s)
         elif kind == "copy_edit":
             # edit the COPY in every way the API offers, then re-measure the source through a cold route
-            observe(s, closed_only=closed, area_ok=area_ok)
+            warm(s)
             c_ = s.copy()
             how = op[1]
             try:
@@ -273,10 +475,10 @@ def run_config(tm, lib, cfg, ops, out):
                     c_.delete_geometry(cfg["gnames"][0])
                 elif how == "edit_geometry":
                     for g_ in c_.geometry.values():
-                        g_.vertices[0] += 3.0
+                        g_.vertices[0] += 3.0 * K
                 elif how == "update_edge":
                     for n_ in list(c_.graph.nodes_geometry):
-                        c_.graph.update(frame_to=n_, matrix=to4(GENS[3]))
+                        c_.graph.update(frame_to=n_, matrix=to4(GENS[3], K))
                 elif how == "scaled_per_axis":
                     s.scaled([1, 2, 3])
                 elif how == "scaled":
@@ -284,41 +486,190 @@ def run_config(tm, lib, cfg, ops, out):
                 elif how == "subscene_delete":
                     sub_ = s.subscene(names[0])
                     for n_ in list(sub_.graph.nodes_geometry):
-                        sub_.graph.update(frame_to=n_, matrix=to4(GENS[5]))
-            except BaseException:
+                        sub_.graph.update(frame_to=n_, matrix=to4(GENS[5], K))
+            except BaseException:  # noqa
                 pass
-            rec("source_cold_after_" + how, lambda: s.copy())
-            rec("source_warm_after_" + how, lambda: s)
+            emit("source_cold_after_" + how, lambda: s.copy())
+            emit("source_warm_after_" + how, lambda: s)
         elif kind == "edit_geometry":
             # warm caches, edit a vertex of a (possibly shared) geometry in place, read again
-            observe(s, closed_only=closed, area_ok=area_ok)
+            warm(s)
             gname = op[1]
             if gname in s.geometry:
                 newv = [6, 0, 0]
 
                 def f():
-                    s.geometry[gname].vertices[1] = newv
+                    nv = np.array(newv, dtype=float) * K
+                    s.geometry[gname].vertices[1] = nv[:s.geometry[gname].vertices.shape[1]]
                     return s
-                # the edited shape has no integer area / is no longer the closed solid: compare points only
-                rec("edit_geometry", f, sgeoms=spec_geoms(lib, cfg["gnames"], edits={gname: [(1, newv)]}), area=False, edited=gname)
+                # the edited shape has no integer area: compare points, triangles and the signed volume
+                emit("edit_geometry", f, edits={gname: [(1, newv)]}, mass=False, edited=gname)
         elif kind == "edit_edge":
-            observe(s, closed_only=closed, area_ok=area_ok)
-            node, gi = op[1], op[2]
+            warm(s)
+            node, g = op[1], op[2]
             if node <= len(names):
                 c2 = dict(cfg)
                 c2["edge"] = list(cfg["edge"])
-                c2["edge"][node - 1] = GENS[gi]
+                c2["edge"][node - 1] = g
                 parent = None if cfg["parent"][node - 1] == 0 else names[cfg["parent"][node - 1] - 1]
 
                 def f():
-                    s.graph.update(frame_to=names[node - 1], frame_from=parent, matrix=to4(GENS[gi]))
+                    s.graph.update(frame_to=names[node - 1], frame_from=parent, matrix=to4(g, K))
                     return s
-                rec("edit_edge", f, scfg=spec_cfg(c2), node=node, gen=gi)
+                emit("edit_edge", f, c=c2, node=node)
+        elif kind == "seq":
+            run_seq(tm, lib, cfg, s, names, op[1], emit, warm, K, do_warm=op[2])
 
 
-def observe_dummy():
-    return {"empty": True, "bounds": [[0, 0, 0], [0, 0, 0]], "has_tris": False, "tris": [], "has_vol": False, "vol6": 0,
-            "has_area": False, "area2": 0}
+def sel_has_solid(c, sub, lib):
+    """is a solid instanced in the selected part of the configuration (whole scene, or the subtree of `sub`)"""
+    if c.get("strip"):
+        return False
+    for k, g in enumerate(c["geom"]):
+        if not g or lib[c["gnames"][g - 1]]["kind"] != "solid":
+            continue
+        cur = k + 1
+        while cur != 0 and cur != sub:
+            cur = c["parent"][cur - 1]
+        if cur == sub:
+            return True
+    return False
+
+
+def selected(scfg, sub):
+    """nodes with geometry in the selected part of a spec configuration"""
+    out = []
+    for k, g in enumerate(scfg["geom"]):
+        cur = k + 1
+        while g and cur != 0 and cur != sub:
+            cur = scfg["parent"][cur - 1]
+        if g and cur == sub:
+            out.append(k + 1)
+    return out
+
+
+def per_axis_step(st):
+    """an affine step whose linear part is diagonal with unequal factors"""
+    L = np.array(st["l"])
+    return st["k"] == "m" and not (L - np.diag(np.diag(L))).any() and len(set(np.diag(L).tolist())) > 1
+
+
+def is_rot_only(st):
+    """a step whose linear part is a similarity (rows of equal norm, orthogonal)"""
+    L = np.array(st["l"], dtype=float)
+    G = L @ L.T
+    return bool(np.allclose(G, np.eye(3) * G[0, 0]))
+
+
+def run_seq(tm, lib, cfg, s, names, prims, emit, warm, K, do_warm):
+    """A sequence of operations; in-place ones act on the current scene, the others derive a new scene."""
+    cur, c, steps, sub = s, cfg, [], 0
+    src_steps, derived, label, per_axis = [], False, [], False
+    try:
+        for pr in prims:
+            if do_warm:
+                warm(cur)
+            kind = pr[0]
+            label.append(kind)
+            st = None
+            if kind == "rezero":
+                cur.rezero()
+                st = rz_step()
+            elif kind == "apply":
+                cur.apply_transform(to4(pr[1], K))
+                st = m_step(pr[1])
+            elif kind == "scaled":
+                arg, m, uniform = scale_map(pr[1])
+                per_axis = per_axis or not uniform
+                cur, derived = cur.scaled(arg), True
+                st = m_step(m)
+            elif kind == "copy":
+                cur, derived = cur.copy(), True
+            elif kind == "units":
+                cur.units = pr[1]
+                cur, derived = cur.convert_units(pr[2]), True
+                st = m_step(UNITS[(pr[1], pr[2])])
+            elif kind == "delgeom":
+                # a graph / geometry edit in place: every instance of one geometry goes away
+                gi = 1 + pr[1] % len(c["gnames"])
+                cur.delete_geometry(c["gnames"][gi - 1])
+                c = dict(c, geom=[0 if g_ == gi else g_ for g_ in c["geom"]])
+                if not derived:
+                    cfg = c
+            elif kind == "replace":
+                # the geometry behind a name is replaced by another object (every instance follows)
+                gi = 1 + pr[1] % len(c["gnames"])
+                new = "tet" if c["gnames"][gi - 1] != "tet" else "box"
+                if c["gnames"][gi - 1] not in cur.geometry:
+                    return
+                cur.geometry[c["gnames"][gi - 1]] = lib[new]["make"](K)
+                c = dict(c, gnames=[new if k_ == gi - 1 else g_ for k_, g_ in enumerate(c["gnames"])])
+                if not derived:
+                    cfg = c
+            elif kind == "rmleaf":
+                # a graph edit in place: a leaf frame (and its instance) is removed
+                if len(c["parent"]) != len(names) or derived:
+                    return
+                leaves = [k_ + 1 for k_ in range(len(names)) if (k_ + 1) not in c["parent"] and c["geom"][k_]]
+                if not leaves:
+                    return
+                leaf = leaves[pr[1] % len(leaves)]
+                cur.graph.transforms.remove_node(names[leaf - 1])
+                c = dict(c, geom=[0 if k_ == leaf - 1 else g_ for k_, g_ in enumerate(c["geom"])])
+                cfg = c
+            elif kind == "sub":
+                if len(c["parent"]) != len(names) or pr[1] > len(names):
+                    return
+                if sub:
+                    # a subscene of a subscene: only below the current root
+                    up = pr[1]
+                    while up != 0 and up != sub:
+                        up = c["parent"][up - 1]
+                    if up != sub or pr[1] == sub:
+                        return
+                cur, derived = cur.subscene(names[pr[1] - 1]), True
+                steps, sub = [], pr[1]
+            elif kind in ("add", "radd", "addself", "addmesh", "addgeom"):
+                if sub:
+                    return
+                if kind == "addself":
+                    other_cfg, other = c, cur
+                elif kind == "addmesh":
+                    other_cfg = {"parent": [0], "edge": [IDM], "geom": [1], "gnames": ["box"]}
+                    other = lib["box"]["make"](K)
+                else:
+                    other_cfg = pr[1]
+                    other = build(tm, lib, dict(other_cfg, K=K))[0]
+                order = [other_cfg, c] if kind == "radd" else [c, other_cfg]
+                merged, ranges = merge_cfgs(order)
+                lo, hi = ranges[1] if kind == "radd" else ranges[0]
+                # what was done so far concerns only the instances that came from the current scene
+                steps = [dict(st_, lo=(lo if not st_["hi"] else st_["lo"] + lo - 1), hi=(hi if not st_["hi"] else st_["hi"] + lo - 1))
+                         for st_ in steps]
+                if kind == "addgeom":
+                    cur.add_geometry(other)          # in place: the current scene becomes the sum
+                    if not derived:
+                        src_steps = list(steps)
+                        cfg = merged                 # the source itself is now the sum
+                elif kind == "radd":
+                    cur, derived = other + cur, True
+                else:
+                    cur, derived = cur + other, True
+                c = merged
+            if st is not None:
+                steps.append(st)
+                if not derived:
+                    src_steps.append(st)
+    except BaseException as e:  # noqa
+        exc = type(e).__name__ + ":" + str(e)[:60]
+
+        def boom():
+            raise RuntimeError("sequence raised " + exc)
+        emit("seq:" + "+".join(label), boom, c=c, steps=steps, sub=sub, seq=label, per_axis=per_axis)
+        return
+    emit("seq:" + "+".join(label), lambda: cur, c=c, steps=steps, sub=sub, seq=label, per_axis=per_axis)
+    if derived:
+        emit("source_after_seq:" + "+".join(label), lambda: s, c=cfg, steps=src_steps, seq=label)
 
 
 def _chunk(args):
@@ -434,84 +785,9 @@ def _scene_chunk(args):
     return out, len(args)
 
 
-def configs(tier, rs):
-    shapes = [[0], [0, 0], [0, 1], [0, 0, 0], [0, 0, 1], [0, 1, 1], [0, 1, 2], [0, 0, 2]]
-    gsets = [["box"], ["tet"], ["box", "tet"], ["box", "cloud"], ["sheet", "box"], ["cloud"]]
-    out = []
-    per = 10 if tier == "quick" else 60
-    for shape in shapes:
-        n = len(shape)
-        for gnames in gsets:
-            # geometry assignment: every node gets 0..len(gnames); instancing arises naturally
-            assigns = list(itertools.product(range(len(gnames) + 1), repeat=n))
-            for _ in range(per):
-                geom = list(assigns[rs.randint(len(assigns))])
-                if not any(geom):
-                    geom[rs.randint(n)] = 1
-                edges = [GENS[rs.randint(len(GENS))] for _ in range(n)]
-                out.append({"parent": shape, "edge": edges, "geom": geom, "gnames": gnames})
-    return out
 
-
-def big_configs(rs, count):
-    """Wide-then-deep forests (a chain attached before several leaf siblings) for subscene / successors."""
-    out = []
-    shapes = [[0, 1, 2, 3, 1, 1, 1, 1, 1], [0, 1, 2, 3, 4, 0, 0, 0, 0, 0], [0, 1, 1, 2, 4, 5, 1, 1, 1, 1, 1], [0, 0, 0, 3, 4, 5, 0, 0, 0, 0]]
-    for k in range(count):
-        shape = shapes[k % len(shapes)]
-        n = len(shape)
-        geom = [int(rs.randint(0, 3)) for _ in range(n)]
-        geom[3] = 1
-        geom[-1] = 2
-        edges = [GENS[rs.randint(len(GENS))] if rs.randint(3) else GENS[0] for _ in range(n)]
-        out.append({"parent": shape, "edge": edges, "geom": geom, "gnames": ["box", "tet"]})
-    return out
-
-
-def main(argv):
-    tier = tier_from_args(argv)
-    V = Verdict(PROP, tier)
-    import_trimesh()
-    rs = np.random.RandomState(seed() + 5)
-    cfgs = configs(tier, rs)
-    work = []
-    for ci, cfg in enumerate(cfgs):
-        n = len(cfg["parent"])
-        other = cfgs[(ci * 7 + 3) % len(cfgs)]
-        ops = [("read",), ("copy",), ("scaled", 2), ("scaled", [2, 2, 2]), ("scaled", [1, 2, 3]), ("apply_transform", 1 + ci % (len(GENS) - 1)),
-               ("rezero",), ("to_mesh",), ("dump",), ("subscene", 1 + ci % n), ("add", other),
-               ("edit_geometry", cfg["gnames"][ci % len(cfg["gnames"])]), ("edit_edge", 1 + (ci // 2) % n, (ci * 3) % len(GENS)),
-               ("append3", other, cfgs[(ci * 11 + 5) % len(cfgs)]),
-               ("copy_edit", ["delete_geometry", "edit_geometry", "update_edge", "scaled_per_axis", "scaled", "subscene_delete"][ci % 6])]
-        work.append((cfg, ops))
-    for k, cfg in enumerate(big_configs(rs, 24 if tier == "quick" else 200)):
-        n = len(cfg["parent"])
-        work.append((cfg, [("read",), ("subscene", 1), ("subscene", 1 + k % n), ("subscene", 1 + (k * 5) % n), ("to_mesh",), ("copy",)]))
-    res = pmap(_chunk, work, chunk=8)
-    cases = [c for r in res for c in r]
-    for k, c in enumerate(cases):
-        c["id"] = k
-    descs = [c.pop("desc") for c in cases]
-    if len(cases) < 1000:
-        raise MachineryError("too few cases")
-    rejects, states, wall = tlc.validate_batches("c10", "ScenePlace", cases, CFG, timeout=1500)
-    byop = {}
-    for c in cases:
-        byop[c["op"]] = byop.get(c["op"], 0) + 1
-    for cid, clause in sorted(rejects.items()):
-        c = cases[cid]
-        d = descs[cid]
-        detail = {"op": c["op"], "config": d, "edges": c["cfg"]["edge"], "outer": c["m"], "sub": c["sub"], "exc": c["exc"],
-                  "observed_bounds": c["obs"]["bounds"], "observed_vol6": c["obs"]["vol6"], "observed_area2": c["obs"]["area2"]}
-        dev = None
-        if c["op"] == "scaled_per_axis" and clause in ("bounds", "triangles", "volume", "area", "raised"):
-            # per-axis scaling of translations in local frames: wrong as soon as an ancestor edge rotates
-            rotated = any(e["l"] != I3 and e["l"] != sc(I3, 2) for e in c["cfg"]["edge"])
-            nonuniform = len(set(np.diag(np.array(c["m"]["l"])).tolist())) > 1
-            if rotated and nonuniform:
-                dev = "ScaledPerAxisUnderRotatedParent"
-        V.violation(f"{c['op']}:{clause}", detail, dev)
-    # composition layer: scene cache over shared geometry and the graph's dirty memo
+def scene_cache_layer(V, tier):
+    """composition layer: scene cache over shared geometry and the graph's dirty memo"""
     d = tlc.prepare("c10/scenecache")
     r = tlc.must(tlc.run(d, "SceneCache", SC_CFG.format(depth=7, forget="FALSE", view="VIEW View", invs="INVARIANT NoStaleSceneRead")), "scenecache")
     rr = tlc.run(d, "SceneCache", SC_CFG.format(depth=7, forget="TRUE", view="VIEW View", invs="INVARIANT NoStaleSceneRead"))
@@ -530,16 +806,276 @@ def main(argv):
     for x in res3:
         for f in x[0]:
             V.violation(f["clause"], f)
-    states += r.distinct + r2.distinct
-    cov = {"states": states, "transitions": states + r.generated, "traces_validated_against_impl": len(cases) + n_sc,
+    return r.distinct + r2.distinct, r.generated, n_sc
+
+
+SHAPES = [[0], [0, 0], [0, 1], [0, 0, 0], [0, 0, 1], [0, 1, 1], [0, 1, 2], [0, 0, 2]]
+
+
+def configs(rs, per, gsets, gens, fam, shapes=SHAPES, max_rational=None):
+    out = []
+    for shape in shapes:
+        n = len(shape)
+        for gnames in gsets:
+            # geometry assignment: every node gets 0..len(gnames); instancing arises naturally
+            assigns = list(itertools.product(range(len(gnames) + 1), repeat=n))
+            for _ in range(per):
+                geom = list(assigns[rs.randint(len(assigns))])
+                if not any(geom):
+                    geom[rs.randint(n)] = 1
+                edges = [gens[rs.randint(len(gens))] for _ in range(n)]
+                if max_rational is not None:
+                    # at most max_rational edges with a denominator (units stay small), at least one
+                    rat = [k for k, e in enumerate(edges) if e["d"] != 1]
+                    for k in rat[max_rational:]:
+                        edges[k] = GENS[rs.randint(len(GENS))]
+                    if not rat:
+                        edges[rs.randint(n)] = RGENS[rs.randint(len(RGENS))]
+                out.append({"parent": shape, "edge": edges, "geom": geom, "gnames": gnames, "fam": fam})
+    return out
+
+
+def big_configs(rs, count):
+    """Wide-then-deep forests (a chain attached before several leaf siblings) for subscene / successors."""
+    out = []
+    shapes = [[0, 1, 2, 3, 1, 1, 1, 1, 1], [0, 1, 2, 3, 4, 0, 0, 0, 0, 0], [0, 1, 1, 2, 4, 5, 1, 1, 1, 1, 1], [0, 0, 0, 3, 4, 5, 0, 0, 0, 0]]
+    for k in range(count):
+        shape = shapes[k % len(shapes)]
+        n = len(shape)
+        geom = [int(rs.randint(0, 3)) for _ in range(n)]
+        geom[3] = 1
+        geom[-1] = 2
+        edges = [GENS[rs.randint(len(GENS))] if rs.randint(3) else GENS[0] for _ in range(n)]
+        out.append({"parent": shape, "edge": edges, "geom": geom, "gnames": ["box", "tet"], "fam": "big"})
+    return out
+
+
+def sequences(ci, cfg, other, third, gens):
+    """Operation sequences for configuration number ci (a rotating selection)."""
+    n = len(cfg["parent"])
+    g1, g2 = gens[1 + ci % (len(gens) - 1)], gens[1 + (ci * 5 + 2) % (len(gens) - 1)]
+    node = 1 + ci % n
+    child = next((k + 1 for k, p in enumerate(cfg["parent"]) if p == node), node)
+    allseq = [
+        [("rezero",), ("copy",)],
+        [("rezero",), ("scaled", 2)],
+        [("rezero",), ("scaled", [2, 2, 1])],
+        [("rezero",), ("sub", node)],
+        [("rezero",), ("add", other)],
+        [("rezero",), ("radd", other)],
+        [("rezero",), ("apply", g1), ("rezero",)],
+        [("rezero",), ("addgeom", other)],
+        [("rezero",), ("units", "cm", "mm")],
+        [("scaled", 2), ("scaled", 3)],
+        [("scaled", 2), ("scaled", (1, 2))],
+        [("scaled", (1, 2)), ("rezero",)],
+        [("copy",), ("copy",)],
+        [("apply", g1), ("apply", g2)],
+        [("apply", g1), ("scaled", 2)],
+        [("scaled", 2), ("apply", g1)],
+        [("apply", g1), ("sub", node)],
+        [("sub", node), ("sub", child)],
+        [("sub", node), ("scaled", 2)],
+        [("sub", node), ("rezero",)],
+        [("sub", node), ("copy",), ("apply", g2)],
+        [("add", other), ("add", third)],
+        [("add", other), ("rezero",)],
+        [("add", other), ("scaled", 2)],
+        [("addself",)],
+        [("addmesh",)],
+        [("addgeom", other)],
+        [("addgeom", other), ("rezero",), ("add", third)],
+        [("copy",), ("rezero",), ("radd", other)],
+        [("units", "mm", "cm"), ("units", "cm", "mm")],
+        [("scaled", [1, 2, 2]), ("rezero",)],
+        [("delgeom", ci), ("scaled", [1, 2, 2])],
+        [("delgeom", ci), ("scaled", 2)],
+        [("delgeom", ci), ("copy",), ("rezero",)],
+        [("delgeom", ci), ("add", other)],
+        [("delgeom", ci), ("sub", node)],
+        [("replace", ci)],
+        [("replace", ci), ("scaled", 2)],
+        [("replace", ci), ("add", other)],
+        [("rmleaf", ci)],
+        [("rmleaf", ci), ("copy",)],
+        [("rmleaf", ci), ("scaled", [2, 2, 1])],
+    ]
+    pick = 6
+    return [("seq", allseq[(ci * pick + j) % len(allseq)], bool((ci + j) % 2)) for j in range(pick)]
+
+
+def plan(tier, rs):
+    """(cfg, ops) work items of every family."""
+    quick = tier == "quick"
+    work = []
+    # ---- base family: integer maps, all single operations, sequences, orphans, hull on a third
+    base_g = [["box"], ["tet"], ["box", "tet"], ["box", "cloud"], ["sheet", "box"], ["cloud"]]
+    cfgs = configs(rs, 10 if quick else 40, base_g, GENS, "base")
+    for ci, cfg in enumerate(cfgs):
+        n = len(cfg["parent"])
+        other, third = cfgs[(ci * 7 + 3) % len(cfgs)], cfgs[(ci * 11 + 5) % len(cfgs)]
+        cfg["hull"] = ci % 3 == 0
+        if ci % 4 == 1:
+            cfg["orphan"] = True
+        ops = [("read",), ("copy",), ("scaled", 2), ("scaled", [2, 2, 2]), ("scaled", [1, 2, 3]), ("apply_transform", GENS[1 + ci % (len(GENS) - 1)]),
+               ("rezero",), ("to_mesh",), ("dump",), ("subscene", 1 + ci % n), ("add", other),
+               ("edit_geometry", cfg["gnames"][ci % len(cfg["gnames"])]), ("edit_edge", 1 + (ci // 2) % n, GENS[(ci * 3) % len(GENS)]),
+               ("append3", other, third),
+               ("copy_edit", ["delete_geometry", "edit_geometry", "update_edge", "scaled_per_axis", "scaled", "subscene_delete"][ci % 6]),
+               ("scaled", (1, 2)), ("units",) + [("cm", "mm"), ("mm", "cm")][ci % 2], [("to_geometry",), ("dumpc",)][ci % 2]]
+        ops += sequences(ci, cfg, other, third, GENS)
+        work.append((cfg, ops))
+    for k, cfg in enumerate(big_configs(rs, 24 if quick else 200)):
+        n = len(cfg["parent"])
+        work.append((cfg, [("read",), ("subscene", 1), ("subscene", 1 + k % n), ("subscene", 1 + (k * 5) % n), ("to_mesh",), ("copy",)]))
+    # ---- rational family: rotations that are not axis aligned, scale 1/2
+    rat_g = [["box"], ["tet"], ["box", "tet"], ["tet", "cloud"], ["sheet", "tet"]]
+    rcfgs = configs(rs, 3 if quick else 12, rat_g, GENS + RGENS + RGENS, "rational", max_rational=2)
+    for ci, cfg in enumerate(rcfgs):
+        n = len(cfg["parent"])
+        other = rcfgs[(ci * 7 + 3) % len(rcfgs)]
+        cfg["hull"] = ci % 2 == 0
+        rg = RGENS[ci % len(RGENS)]
+        ops = [("read",), ("copy",), ("scaled", 2), ("scaled", (1, 2)), ("apply_transform", rg), ("rezero",), ("to_mesh",), ("dump",),
+               ("subscene", 1 + ci % n), ("add", other), ("edit_edge", 1 + (ci // 2) % n, RGENS[(ci * 3) % len(RGENS)]),
+               ("seq", [("rezero",), ("radd", other)], True), ("seq", [("apply", rg), ("apply", GENS[1 + ci % 6])], False)]
+        work.append((cfg, ops))
+    # ---- magnitude family: the whole scene (vertices and translations) at 2^k
+    mags = [2.0 ** -20, 2.0 ** -10, 2.0 ** 10, 2.0 ** 20] + ([] if quick else [2.0 ** 30, 2.0 ** -16])
+    mcfgs = configs(rs, 2 if quick else 8, [["box"], ["tet"], ["box", "tet"], ["box", "cloud"]], GENS, "magnitude")
+    for ci, cfg in enumerate(mcfgs):
+        n = len(cfg["parent"])
+        cfg["K"] = mags[ci % len(mags)]
+        cfg["hull"] = True
+        other = mcfgs[(ci * 7 + 3) % len(mcfgs)]
+        ops = [("read",), ("copy",), ("scaled", 2), ("scaled", [2, 2, 2]), ("apply_transform", GENS[1 + ci % 6]), ("rezero",), ("to_mesh",),
+               ("dump",), ("subscene", 1 + ci % n), ("add", other), ("edit_geometry", cfg["gnames"][0]),
+               ("edit_edge", 1 + ci % n, GENS[(ci * 3) % len(GENS)]), ("seq", [("rezero",), ("add", other)], True)]
+        work.append((cfg, ops))
+    # microscopic scenes: only the hull is known to go wrong there (absolute tolerances in convex.py)
+    for ci, cfg in enumerate(configs(rs, 1, [["box"], ["box", "tet"]], GENS, "microhull", shapes=SHAPES[:4] if quick else SHAPES)):
+        cfg["K"] = 2.0 ** -24
+        cfg["hull"] = True
+        work.append((cfg, [("read",)]))
+    # ---- kinds family: 2D / 3D paths next to meshes and clouds
+    kind_g = [["rect"], ["rect", "box"], ["pl3", "box"], ["rect", "pl3"], ["pl3", "cloud"], ["rect", "tet"]]
+    kcfgs = configs(rs, 3 if quick else 10, kind_g, GENS, "kinds")
+    for ci, cfg in enumerate(kcfgs):
+        n = len(cfg["parent"])
+        other = kcfgs[(ci * 7 + 3) % len(kcfgs)]
+        cfg["hull"] = ci % 2 == 0
+        ops = [("read",), ("copy",), ("scaled", 2), ("scaled", [2, 2, 2]), ("scaled", [1, 2, 3]), ("scaled", (1, 2)),
+               ("apply_transform", GENS[1 + ci % 6]), ("rezero",), ("to_mesh",), ("dump",), ("subscene", 1 + ci % n), ("add", other),
+               ("edit_geometry", cfg["gnames"][ci % len(cfg["gnames"])]), ("edit_edge", 1 + ci % n, GENS[(ci * 3) % len(GENS)]),
+               ("units", "cm", "mm"), [("to_geometry",), ("dumpc",)][ci % 2], ("seq", [("rezero",), ("scaled", 2)], True)]
+        work.append((cfg, ops))
+    # ---- scenes whose geometries are all instanced zero times
+    scfgs = configs(rs, 1, [["box"], ["box", "tet"]], GENS, "noinstance", shapes=SHAPES[:4])
+    for ci, cfg in enumerate(scfgs):
+        cfg["strip"] = True
+        other = cfgs[(ci * 7 + 3) % len(cfgs)]
+        work.append((cfg, [("read",), ("copy",), ("scaled", 2), ("scaled", [1, 2, 3]), ("rezero",), ("apply_transform", GENS[1]), ("to_mesh",),
+                           ("dump",), ("add", other), ("subscene", 1)]))
+    # ---- mass family: small coordinates, closed solids (centre of mass, inertia about the base frame)
+    mass_g = [["box"], ["tet"], ["box", "tet"], ["box", "cloud"]]
+    macfgs = configs(rs, 4 if quick else 15, mass_g, MGENS, "mass", shapes=SHAPES[:6])
+    for ci, cfg in enumerate(macfgs):
+        n = len(cfg["parent"])
+        other = macfgs[(ci * 7 + 3) % len(macfgs)]
+        ops = [("read",), ("copy",), ("apply_transform", MGENS[1 + ci % 6]), ("edit_edge", 1 + ci % n, MGENS[(ci * 3) % len(MGENS)]),
+               ("add", other), ("subscene", 1 + ci % n), ("dump",), ("seq", [("apply", MGENS[1 + ci % 6]), ("copy",)], True)]
+        work.append((cfg, ops))
+    return work, len(cfgs)
+
+
+GUARDS_QUICK = {"hull_observed": 2000, "mass_observed": 3000, "mass": 300, "rational": 300, "magnitude": 250, "kinds": 400, "noinstance": 40, "microhull": 6,
+                "seq": 1500, "subscene_own": 150, "orphan": 1500, "rezero_then": 400, "units": 300}
+
+
+def main(argv):
+    tier = tier_from_args(argv)
+    V = Verdict(PROP, tier)
+    import_trimesh()
+    rs = np.random.RandomState(seed() + 5)
+    work, n_base = plan(tier, rs)
+    res = pmap(_chunk, work, chunk=4)
+    cases = [c for r in res for c in r]
+    for k, c in enumerate(cases):
+        c["id"] = k
+    descs = [c.pop("desc") for c in cases]
+    fams = [c.pop("fam") for c in cases]
+    if len(cases) < 1000:
+        raise MachineryError("too few cases")
+    # coverage of the families (no vacuity): count what the records really exercise
+    fam_cov = {}
+    for c, d, f in zip(cases, descs, fams):
+        keys = [f]
+        if c["obs"]["hull"]["has"]:
+            keys.append("hull_observed")
+        if c["obs"]["mass"]["has"]:
+            keys.append("mass_observed")
+        if c["op"].startswith("seq:"):
+            keys.append("seq")
+            if c["op"].startswith("seq:rezero+"):
+                keys.append("rezero_then")
+        if c["op"] == "subscene" and c["sub"] and c["cfg"]["geom"][c["sub"] - 1]:
+            keys.append("subscene_own")
+        if d.get("orphan"):
+            keys.append("orphan")
+        if "units" in c["op"]:
+            keys.append("units")
+        for k_ in keys:
+            fam_cov[k_] = fam_cov.get(k_, 0) + 1
+    # a family that came out nearly empty must not yield a clean verdict; when the tree under test makes the
+    # observations themselves fail (everything raises) the violations are reported instead, see below
+    short = {k_: (fam_cov.get(k_, 0), need) for k_, need in GUARDS_QUICK.items() if fam_cov.get(k_, 0) < need}
+    rejects, states, wall = tlc.validate_batches("c10", "ScenePlace", cases, CFG, timeout=2400)
+    byop = {}
+    for c in cases:
+        key = c["op"] if not c["op"].startswith(("seq:", "source_after_seq:")) else c["op"].split(":")[0]
+        byop[key] = byop.get(key, 0) + 1
+    for cid, clause in sorted(rejects.items()):
+        c = cases[cid]
+        d = descs[cid]
+        if clause == "inexact":
+            raise MachineryError("record %d: the units chosen by the harness do not clear a denominator: %r" % (cid, {k: c[k] for k in ("op", "cfg", "steps", "F", "FV", "FA")}))
+        detail = {"op": c["op"], "family": fams[cid], "config": d, "edges": c["cfg"]["edge"], "steps": c["steps"], "sub": c["sub"], "exc": c["exc"],
+                  "observed_bounds": c["obs"]["bounds"], "observed_vol6": c["obs"]["vol6"], "observed_area2": c["obs"]["area2"],
+                  "units": [c["F"], c["FV"], c["FA"]], "hull_exc": c["obs"]["hull"]["exc"], "mass_exc": c["obs"]["mass"]["exc"],
+                  "vol_exc": c["obs"]["vol_exc"]}
+        dev = None
+        nonuniform = any(per_axis_step(st) for st in c["steps"])
+        if nonuniform and clause in ("bounds", "triangles", "volume", "area", "raised", "hull", "hull_raised", "center_mass", "inertia"):
+            # per-axis scaling of translations in local frames: wrong as soon as an ancestor edge rotates
+            if any(is_rotated(e) for e in c["cfg"]["edge"]):
+                dev = "ScaledPerAxisUnderRotatedParent"
+        elif clause == "subscene_drops_own_geometry":
+            dev = "SubsceneDropsNodeGeometry"
+        elif clause == "raised" and not selected(c["cfg"], c["sub"]):
+            # an operation on a scene without a single instance raised instead of doing nothing
+            dev = "NoInstanceSceneRaises"
+        elif fams[cid] == "microhull" and clause in ("hull", "hull_raised"):
+            dev = "HullOfMicroscopicScene"
+        V.violation(f"{c['op'].split(':')[0] if c['op'].startswith('source_after_seq') else c['op']}:{clause}", detail, dev)
+    sc_states, sc_gen, n_sc = scene_cache_layer(V, tier)
+    states += sc_states
+    if short and not V.violations:
+        raise MachineryError("families came out nearly empty (have, need): %r; all: %r" % (short, fam_cov))
+    cov = {"states": states, "transitions": states + sc_gen, "traces_validated_against_impl": len(cases) + n_sc,
            "scene_cache_histories_replayed": n_sc,
-           "configurations": len(cfgs), "cases_per_operation": byop, "rejected": len(rejects),
+           "configurations": len(work), "cases_per_operation": byop, "records_per_family": fam_cov, "families_below_guard": {k_: list(v_) for k_, v_ in short.items()}, "rejected": len(rejects),
            "tlc_wall_s": round(wall, 1),
-           "samples": [{k: cases[len(cases) // 3][k] for k in ("op", "cfg", "m", "sub")}, {k: cases[-1][k] for k in ("op", "cfg", "m", "sub")}]}
+           "samples": [{k: cases[len(cases) // 3][k] for k in ("op", "cfg", "steps", "sub")}, {k: cases[-1][k] for k in ("op", "cfg", "steps", "sub")}]}
     return V.finish("model_checking", cov, assumptions=[
-        "edge transforms: cube rotations x integer uniform scale x integer translations (exact in doubles and in TLC)",
-        "forests of at most 3 frames below the base; geometries: closed box, closed tetrahedron, open sheet, point cloud",
-        "triangles compared as a bag of oriented triangles up to cyclic rotation; area only for geometries with axis-aligned faces",
+        "edge transforms: cube rotations, 3-4-5 and 1-2-2 rational rotations x uniform scale 2 or 1/2 x integer translations "
+        "(exact in TLC; rational entries are rounded doubles in the real scene, observations are snapped with a residual test)",
+        "forests of at most 3 frames below the base (11 for subscene / copy / to_mesh); geometries: closed box, closed tetrahedron, "
+        "open sheet, point cloud, closed 2D polyline, open 3D polyline; whole scenes at magnitudes 2^-20 .. 2^20 (2^30 thorough)",
+        "triangles compared as a bag of oriented triangles up to cyclic rotation; area only for similarity maps and meshes with "
+        "axis-aligned faces; volume only without open sheets; no mirrors (det < 0) among edge transforms",
+        "convex hull judged by a certificate (closed, convex, vertices among the placed points, every placed point inside), only "
+        "when the placed points are not coplanar; centre of mass and inertia (unit density, about the base frame) only for "
+        "coordinates up to 12",
     ])
 
 
